@@ -81,8 +81,8 @@ class Placement:
 
 
 class Payload:
-    def __init__(self, tag, lo, hi):
-        self.tag, self.lo, self.hi = tag, lo, hi
+    def __init__(self, tag, lo, hi, decoded_len=None):
+        self.tag, self.lo, self.hi, self.decoded_len = tag, lo, hi, decoded_len
 
     def __repr__(self):
         return f"Payload({self.tag}[{self.lo}:{self.hi}])"
@@ -296,6 +296,10 @@ def str_method(recv, name, args):
 
 
 def concat_join(sep, parts):
+    if isinstance(parts, (str, TS)):
+        if sep == "":
+            return parts          # "".join(s) of a string re-assembles its characters
+        raise Unsupported("str.join over the characters of a symbolic string")
     parts = list(parts)
     out = []
     for i, p in enumerate(parts):
@@ -636,6 +640,78 @@ class VT:
         handler = g.get("on_command")
         if handler is not None:
             handler(self, which, keys)
+            return
+        if which == "osc":
+            text = "".join(x for x in keys if isinstance(x, str))
+            if text.startswith("1337;File="):
+                self.iterm2_file(keys)
+
+    def iterm2_file(self, keys):
+        """OSC 1337 ; File = k=v;k=v... : <base64> ST  (inline image).  Places width x height cells at the cursor and moves
+        the cursor to the last line just past the image, unless doNotMoveCursor=1 (konsole)."""
+        g = self.g
+        items = list(keys)
+        head = "1337;File="
+        n = 0
+        while n < len(items) and isinstance(items[n], str) and "".join(items[:n + 1]) == head[:n + 1]:
+            n += 1
+        items = items[n:]
+        ctrl, cur_key, cur_val, state, payload = {}, "", [], "key", []
+        for i, x in enumerate(items):
+            if x == ":" and state in ("key", "val"):
+                payload = items[i + 1:]
+                break
+            if state == "key":
+                if x == "=":
+                    state = "val"
+                elif isinstance(x, str):
+                    cur_key += x
+                else:
+                    raise Unsupported("symbolic piece in an iTerm2 key")
+            elif x == ";":
+                ctrl[cur_key] = cur_val
+                cur_key, cur_val, state = "", [], "key"
+            else:
+                cur_val.append(x)
+        if cur_key:
+            ctrl[cur_key] = cur_val
+
+        def val(k):
+            v = ctrl.get(k)
+            if v is None:
+                return None
+            if len(v) == 1 and isinstance(v[0], IntDec):
+                return v[0].v
+            if all(isinstance(c, str) for c in v):
+                t = "".join(v)
+                return int(t) if t.isdigit() else t
+            raise Unsupported(f"iTerm2 value of {k}")
+        w, h, size = val("width"), val("height"), val("size")
+        self.oblige("iterm2:inline-image-with-width,height,size", z3.BoolVal(w is not None and h is not None and size is not None and val("inline") == 1))
+        if w is None or h is None:
+            return
+        pl = [x for x in payload if not (isinstance(x, str) and x == "")]
+        if len(pl) == 1 and isinstance(pl[0], Payload) and pl[0].decoded_len is not None and size is not None:
+            # C03: the size= key equals the number of bytes that were base64-encoded
+            self.oblige("C03:size-key=decoded-payload-length", to_z3(size) == to_z3(pl[0].decoded_len), prop="C03", kind="protocol")
+        else:
+            self.oblige("C03:payload-is-one-base64-text", False, prop="C03", kind="protocol")
+        g["iterm2"] = g.get("iterm2", []) + [dict(width=w, height=h, size=size, keys={k: val(k) for k in ctrl},
+                                                     payload=pl[0] if len(pl) == 1 else None)]
+        moves = val("doNotMoveCursor") != 1
+        if not moves:
+            self.placement(Placement("iterm2", w, h, moves_cursor=False))
+        else:
+            c0 = self.ncol()
+            self.oblige("never-wraps", c0 + to_z3(w) <= to_z3(g["TW"]), kind="geometry")
+            g["img"] = (g["row"], g["row"] + h, c0, c0 + w)
+            g["placements"] = g.get("placements", 0) + 1
+            g["bottom"] = Max(g["bottom"], g["row"] + h - 1)        # scrolls like height-1 newlines if needed
+            g["irregular"] = If(to_z3(h) > 1, True, g["irregular"])
+            g["row"] = g["row"] + h - 1
+            g["col"] = c0 + w
+            g["line_w"] = g["line_w"] + w
+            g["written"] = g["written"] + w
 
     def cond(self, it):
         # Cond(c, ts): effect of ts when c, nothing otherwise.  Implemented by running ts on a copy and merging.
